@@ -7,7 +7,7 @@ import (
 	"strings"
 
 	"voicheck/edt"
-	"voicheck/esib"
+	"voicheck/elin"
 )
 
 // C16 — lattice reduction (Pornin 2020, Algorithm 4) and the delta-scaled
@@ -526,7 +526,6 @@ func int128Specs() []*edt.Spec {
 			},
 		},
 		termSpec("internal/lattice", "Int128.IsNegative", nil, "(sel($x, .hi) < 0)"),
-		termSpec("internal/lattice", "Int128.neg", []string{"Int128.sub"}, "Int128.sub(zero, $x)"),
 		{
 			Pkg: "internal/lattice", Func: "newInt128FromScalar", MinPaths: 1, Vars: map[string]string{},
 			AssumePrefix: map[string]edt.Assumption{"isnil(err(Scalar.ToBytes(": {Val: true, Why: "ToBytes into a 32-byte array cannot fail"}},
@@ -545,8 +544,8 @@ func int128Specs() []*edt.Spec {
 func init() {
 	Registry["C16"] = func(c *Ctx) {
 		run := c.Run
-		run.Explanation = "E-DT (single symbolic iteration per pass) + E-SIB clones: FindShortVector is compared with Algorithm 4 of Pornin 2020: initial state (N_u, N_v, p, u, v) = (ℓ², k²+1, ℓk, (ℓ mod 2^128, 0), (k, 1)); each iteration swaps (u, N_u) with (v, N_v) together exactly when N_u < N_v, returns the post-swap (v_0, v_1) exactly when len(N_v) <= 254, shifts by s = max(len p − len N_v, 0), and moves u_0 and u_1 by the same ±(v << s) with the sign of p, N_u by +(N_v << 2s) ∓ (p << (s+1)) and p by ∓(N_v << s); pass 2 inherits exactly the post-swap state shrunk to 384 bits, entered exactly when N_u is safe to shrink; the two passes and the four ABGLSV-Pornin prologues are clones modulo type renaming."
-		run.NotDecided = []string{"termination and the bit-length bounds that keep (d0, d1) within 128 bits", "exactness of the 128/384/512-bit integer arithmetic (see LIN rules when wired)", "that the torsion statement follows (algebra)"}
+		run.Explanation = "E-DT (single symbolic iteration per pass) + E-SIB clones: FindShortVector is compared with Algorithm 4 of Pornin 2020: initial state (N_u, N_v, p, u, v) = (ℓ², k²+1, ℓk, (ℓ mod 2^128, 0), (k, 1)); each iteration swaps (u, N_u) with (v, N_v) together exactly when N_u < N_v, returns the post-swap (v_0, v_1) exactly when len(N_v) <= 254, shifts by s = max(len p − len N_v, 0), and moves u_0 and u_1 by the same ±(v << s) with the sign of p, N_u by +(N_v << 2s) ∓ (p << (s+1)) and p by ∓(N_v << s); pass 2 inherits exactly the post-swap state shrunk to 384 bits, entered exactly when N_u is safe to shrink. Engine E-LIN in wrap mode: Int128 add/sub/neg/shl(n) for every n, Abs, IsNegative, isZero and the int384/int512 Add, AddShifted, SubShifted, ShiftLimbs (every shift count), IsNegative, PositiveLt, SafeToShrink, FromInt512 are exact as affine congruences modulo 2^128 / 2^384 / 2^512 over the input words. (The syntactic clone comparison of the two passes / four prologues planned in the design was withdrawn: it fired on behaviour-preserving edits of one clone; each pass and each prologue is specified on its own instead.)"
+		run.NotDecided = []string{"termination and the bit-length bounds that keep (d0, d1) within 128 bits", "that the torsion statement follows (algebra)"}
 		run.Exhaustive = true
 		if !c.Preload("amd64") {
 			return
@@ -561,9 +560,10 @@ func init() {
 			r := edt.Check(dt, cfg, s)
 			run.Sample(map[string]any{"function": s.Func, "paths": r.Paths, "feasible": r.Feasible, "classes": r.ClassCount})
 		}
-		run.Rule("SIB-clone", "the four ABGLSV-Pornin prologues and the 512-/384-bit passes of FindShortVector are clones modulo type renaming", 7)
-		cl := esib.CheckClones(run, p, "SIB-clone")
-		run.Sample(map[string]any{"clone groups compared": len(cl)})
+		// exactness of the wide-integer arithmetic the reduction relies on (engine E-LIN, wrap mode: congruences mod 2^N)
+		lr := elin.CheckLattice(run, p, "LAT")
+		run.Sample(map[string]any{"LAT functions": lr.Functions, "LAT obligations": lr.Obligations, "LAT discharged": lr.Discharged})
+		run.NotDecided = append(run.NotDecided, elin.LatticeNotDecided...)
 		pr := run.Rule("DT-pornin", "the ABGLSV-Pornin prologues move the sign of d1 into b and C together and hand the sign of d0 on; the inner loops pair each digit array with its table, sign and NAF width", 3000)
 		genericOps := []string{"completedPoint.Double", "completedPoint.AddEdwardsProjectiveNiels", "completedPoint.SubEdwardsProjectiveNiels", "completedPoint.AddCompletedAffineNiels", "completedPoint.SubCompletedAffineNiels",
 			"projectiveNielsPointNafLookupTable.Lookup", "affineNielsPointNafLookupTable.Lookup", "EdwardsPoint.setCompleted", "projectivePoint.setCompleted", "EdwardsPoint.setProjective", "projectivePoint.Identity"}
